@@ -183,10 +183,18 @@ class LogRecorder:
         self.need_val = {0, cf.nr, min(cf.nr + 1, cf.umax), cf.umax, cf.umax - 1}
         self.need_p = {0}
         self.floats_draw = []       # all draw floats (for the common scale)
+        # a sketch may start with its pointer past the beginning of the batch (e.g. at the end: the first draw
+        # fills the buffer); the specification's pointer starts at 0 and skips there
+        for i, sk in enumerate(self.slots):
+            if int(sk.rand_ptr) > 0:
+                self.emit({"ev": "set_ptr", "s": i + 1, "p": int(sk.rand_ptr)},
+                          ptr_as={j: 0 for j in range(i + 1, len(self.slots)) if int(self.slots[j].rand_ptr) > 0})
 
     def new_batch(self, sk):
         """True iff the sketch's current batch has never been seen in this history and lies in [0, 1)."""
         a = np.asarray(sk.rand_nums)
+        if int(sk.rand_ptr) >= len(a):
+            return True        # nothing of this buffer will ever be handed out (a lazily filled batch)
         d = a.tobytes()
         ok = d not in self.batches and bool(np.all(a >= 0.0) and np.all(a < 1.0)) and len(np.unique(a)) > 0.97 * len(a)
         self.batches.add(d)
@@ -203,10 +211,12 @@ class LogRecorder:
                 x = int(x)
                 self.need_val.update({x, max(x - 1, 0), min(x + 1, self.cf.umax)})
 
-    def emit(self, ev):
+    def emit(self, ev, ptr_as=None):
         self.note_counters()
         ev["post"] = [proj_log(s) for s in self.slots]
         ev["ptrs"] = [int(s.rand_ptr) for s in self.slots]
+        for i, v in (ptr_as or {}).items():
+            ev["ptrs"][i] = v
         self.events.append(ev)
 
     def set_ptr(self, s, p):
@@ -381,7 +391,10 @@ class LogRecorder:
             if os.path.exists(p):
                 os.unlink(p)
         self.slots[t] = new
-        self.emit({"ev": "saveload", "s": s + 1, "t": t + 1, "fresh_ok": self.new_batch(new)})
+        p0 = int(new.rand_ptr)         # (> 0 for a lazily filled batch: the specification starts at 0 and skips there)
+        self.emit({"ev": "saveload", "s": s + 1, "t": t + 1, "fresh_ok": self.new_batch(new)}, ptr_as={t: 0} if p0 else None)
+        if p0:
+            self.emit({"ev": "set_ptr", "s": t + 1, "p": p0})
 
     def add_records(self, s, n):
         self.slots[s].n_added_records[1] += np.uint64(n)
